@@ -11,8 +11,12 @@ EXPLANATION = (
     "Every clause is decided by abstract evaluation (sa.symex) of the library function on a finite model and comparison "
     "with an independently written oracle; nothing depends on local names or statement layout. The model: indices are "
     "pairwise distinct records (name, spin); a term is a list of objects, each with its index tuple and its table of "
-    "allowed spin blocks (or None); get_symbols returns the record of (name, spin); `x.subs(m)` is recorded as the "
-    "mapping m; Expr(0, ..) is a zero accumulator whose assumptions/target indices are recorded. "
+    "allowed spin blocks (or None); get_symbols returns the record of (name, spin); index replacements on a term "
+    "(x.xreplace(dict), x.subs(.., simultaneous=True): at once; x.subs(pairs), x.subs(old, new): one after another; "
+    "x.subs(dict): one after another in every order) are applied to the model term with KroneckerDelta's evaluation rule "
+    "(a delta between two different non-empty spins is 0, the term is lost) and give the final index map or 0; running into "
+    "an index that is still present is marked; order_substitutions is evaluated through; Expr(0, ..) is a zero accumulator "
+    "whose assumptions/target indices are recorded. "
     "R15f: integrate_spin on 4 model expressions (22 terms: ERI, deltas, t-amplitudes, an asymmetric block table, "
     "unknown tensors, prefactors, pure numbers, objects that carry an index twice - a block that gives such an index two "
     "spins does not contribute) for every target spin string: the returned sum contains, for every term, "
@@ -32,7 +36,9 @@ EXPLANATION = (
     "prefactors). R15e: transform_to_spatial_orbitals with integrate_spin replaced by a model of its result: arguments "
     "forwarded, ERI expansion applied to the integrated expression iff requested and before it is read, unrestricted "
     "result is the integrated expression itself, restricted result = every term once with exactly its beta indices "
-    "renamed to the alpha index of the same name, targets all-alpha, a clash with an existing alpha index refused. "
+    "renamed to the alpha index of the same name all at once (terms with a delta between two beta indices, a chain of "
+    "such deltas and a delta on a beta target survive; a renaming that passes through a delta of an alpha and a beta index "
+    "loses the term), targets all-alpha, a clash with an existing alpha index refused. "
     "R15g: _has_valid_combination on 1728 three-tensor instances against brute force (answer, and on success a "
     "complete consistent assignment left in `variant`). R15h: allowed_spin_blocks(expr, target) on model expressions "
     "(one term, several terms, chains of deltas, objects with a repeated index, the two expressions that need real backtracking) against brute force over "
@@ -43,7 +49,8 @@ ASSUMPTIONS = [
     "the former package-wide sweeps for shallow-copy aliasing (R15a) and unit-less folds (R15b) outside the spin "
     "integration functions were pattern matches on source spelling and are no longer performed; inside integrate_spin, "
     "allowed_spin_blocks and transform_to_spatial_orbitals their consequences are decided by evaluation",
-    "simplify, Expr.expand, order_substitutions and sympy's subs are taken to be value preserving (not decided here)",
+    "simplify and Expr.expand are taken to be value preserving (not decided here); of sympy's subs/xreplace only the "
+    "index renaming and the evaluation of Kronecker deltas between different spins are modelled",
     "allowed_spin_blocks(expr, ..) is evaluated only for expressions in which every indexed object has known spin "
     "blocks closed under the global spin flip (its documented domain)",
 ]
@@ -74,6 +81,7 @@ class World:
         self.I = {}
         self.accs = {}
         self.log = []
+        self.values = {}
 
     def idx(self, name, spin=""):
         k = (name, spin)
@@ -96,7 +104,9 @@ class World:
         allidx = tuple(i for _, ix, _ in objs for i in ix)
         tg = tuple(sorted(set(target), key=KEY))
         t = Obj(None, name)
-        t.attrs.update(objects=os_, idx=allidx, target=tg, sympy=Obj(None, name + ".sympy"),
+        sy = Obj(None, name + ".sympy")
+        sy.attrs.update(_objects=[(tuple(ix), blocks is DELTA and len(ix) == 2) for _, ix, blocks in objs])
+        t.attrs.update(objects=os_, idx=allidx, target=tg, sympy=sy,
                        contracted=tuple(sorted((i for i in set(allidx) if i not in tg), key=KEY)))
         return t
 
@@ -150,18 +160,49 @@ class World:
             a[0].attrs["provided_target_idx"] = a[0].attrs["target"]
             return None
 
+        def pairs_of(m):
+            if isinstance(m, dict):
+                ps = list(m.items())
+            elif isinstance(m, (list, tuple)):
+                ps = [tuple(p) for p in m if isinstance(p, (list, tuple)) and len(p) == 2]
+                if len(ps) != len(m):
+                    return None
+            else:
+                return None
+            return ps if all(isinstance(k, Obj) and isinstance(v, Obj) for k, v in ps) else None
+
         def subs(sx, a, kw):
+            """x.subs(pairs | dict [, simultaneous=True])"""
             recv, m = a[0], a[1] if len(a) > 1 else None
-            if isinstance(recv, T) or isinstance(m, T) or m is None:
+            if not isinstance(recv, Obj) or "_objects" not in recv.attrs:
                 return NotImplemented
-            pairs = list(m.items()) if isinstance(m, dict) else [tuple(p) for p in m]
-            if not all(isinstance(k, Obj) and isinstance(v, Obj) for k, v in pairs):
+            if len(a) == 3 and isinstance(a[1], Obj) and isinstance(a[2], Obj):
+                m = [(a[1], a[2])]
+            ps = pairs_of(m)
+            if ps is None:
                 return NotImplemented
-            d = {}
-            for k, v in pairs:
-                if d.setdefault(k.name, v.name) != v.name:
-                    return T("subs", recv.term, "ambiguous", tuple(sorted((k.name, v.name) for k, v in pairs)))
-            return T("subs", recv.term, frozenset(d.items()))
+            simultaneous = kw.get("simultaneous", False)
+            if isinstance(simultaneous, T):
+                return NotImplemented
+            if simultaneous:
+                return renamed(W, recv, ps, True)
+            if isinstance(m, dict) and len(ps) > 1:
+                # sympy applies the entries of a dict one after another in an order of its own
+                orders = list(itertools.islice(itertools.permutations(ps), 120))
+                res = [renamed(W, recv, list(o), False) for o in orders]
+                vals = sorted({repr(W.values[r.name]) for r in res})
+                if len(vals) > 1:
+                    W.values[res[0].name] = T("subs", recv.attrs.get("_origin", recv).term,
+                                              "depends on the order in which sympy applies the entries", tuple(vals))
+                return res[0]
+            return renamed(W, recv, ps, False)
+
+        def xreplace(sx, a, kw):
+            recv, m = a[0], a[1] if len(a) > 1 else kw.get("rule")
+            if not isinstance(recv, Obj) or "_objects" not in recv.attrs or not isinstance(m, dict):
+                return NotImplemented
+            ps = pairs_of(m)
+            return NotImplemented if ps is None else renamed(W, recv, ps, True)
 
         def ident(sx, a, kw):
             return a[0]
@@ -175,8 +216,49 @@ class World:
         def sort_key(sx, a, kw):
             return KEY(a[0]) if isinstance(a[0], Obj) else NotImplemented
 
-        return {"get_symbols": get_symbols, "Expr": expr_ctor, "set_target_idx": set_target_idx, "subs": subs,
-                "order_substitutions": ident, "simplify": ident, "sort_idx_canonical": sort_key, "Add": add, "Mul": mul}
+        return {"get_symbols": get_symbols, "Expr": expr_ctor, "set_target_idx": set_target_idx, "subs": subs, "xreplace": xreplace,
+                "simplify": ident, "sort_idx_canonical": sort_key, "Add": add, "Mul": mul}
+
+
+def _dead(objs, cur):
+    """KroneckerDelta.eval: a delta between indices of two different (non-empty) spins is 0"""
+    return any(is_delta and cur[ix[0]].attrs["spin"] and cur[ix[1]].attrs["spin"] and
+               cur[ix[0]].attrs["spin"] != cur[ix[1]].attrs["spin"] for ix, is_delta in objs)
+
+
+def renamed(W, recv, pairs, simultaneous):
+    """The model term ``recv`` after the index replacements ``pairs`` (applied at once, or one after another as sympy's subs
+    does), as a record that can be renamed again.  Its value (World.values) is 0 as soon as a delta connects two different
+    spins, otherwise subs(term, {index -> final index}); a replacement that runs into an index which is still present
+    identifies two indices (marked)."""
+    origin = recv.attrs.get("_origin", recv)
+    objs = origin.attrs["_objects"]
+    cur = dict(recv.attrs.get("_cur") or {i: i for ix, _ in objs for i in ix})
+    captured = recv.attrs.get("_captured", False)
+    dead = recv.attrs.get("_zero", False) or _dead(objs, cur)
+    if not dead and simultaneous:
+        m = {}
+        for old, new in pairs:
+            if m.setdefault(old, new) is not new:
+                captured = True
+        cur = {o: m.get(c, c) for o, c in cur.items()}
+        captured = captured or len(set(cur.values())) != len(cur)
+        dead = _dead(objs, cur)
+    elif not dead:
+        for old, new in pairs:
+            present = set(cur.values())
+            if old in present and new in present and new is not old:
+                captured = True
+            cur = {o: (new if c is old else c) for o, c in cur.items()}
+            if _dead(objs, cur):
+                dead = True
+                break
+    r = Obj(None, f"$renamed{len(W.values)}")
+    r.attrs.update(_origin=origin, _objects=objs, _cur=cur, _captured=captured, _zero=dead)
+    final = frozenset((o.name, c.name) for o, c in cur.items() if c is not o)
+    W.values[r.name] = 0 if dead else T("subs", origin.term, "identifies two indices", final) if captured else \
+        (T("subs", origin.term, final) if final else origin.term)
+    return r
 
 
 def evaluate(ctx, ref, build, what, extra=None, max_paths=64):
@@ -199,11 +281,12 @@ def evaluate(ctx, ref, build, what, extra=None, max_paths=64):
     return list(zip(outs, worlds))
 
 
-def flat(v):
-    """summands of a returned sum; records become their symbol"""
+def flat(v, W):
+    """summands of a returned sum; records become their symbol, renamed terms their value"""
     if isinstance(v, Obj):
         v = v.term
-    return [x for x in summands(v) if not (is_num(x) and x == 0)]
+    out = [W.values.get(x.args[0], x) if isinstance(x, T) and x.op == "sym" else x for x in summands(v)]
+    return [x for x in out if not (is_num(x) and x == 0)]
 
 
 def assignments(indices, objs, fixed):
@@ -309,7 +392,7 @@ def r15f(ctx):
                         f"{[repr(o)[:200] for o, _ in res][:3]}", key=f"{fname} {spins} outcome")
                 continue
             o, W = rets[0]
-            parts = flat(o.value)
+            parts = flat(o.value, W)
             fixed = dict(zip(target, spins))
             left = list(parts)
             for name, rule, objs in fam:
@@ -383,7 +466,12 @@ def _integrated(W, clash=False):
         W.term("T1", [("X", (ia, ab), None), ("V", (ia, ja, ba, ca), ERI), ("Y", (ja, ba, ca), None)], (ia, ab)),
         W.term("T2", [("V", (ia, jb, ca, bb), ERI), ("Y", (jb, ca, bb, ab), None)], (ia, ab)),
         W.term("T3", [("c", (), None)], ()),
+        # deltas: between two beta indices (renaming one after the other passes through a delta of two spins, which is 0),
+        # a chain of them, and a delta of two spins (that term is 0 before and after the renaming)
         W.term("T4", [("X", (ia, ab), None), ("d", (jb, kb), DELTA)], (ia, ab)),
+        W.term("T6", [("X", (ia, ab), None), ("d", (jb, kb), DELTA), ("d", (kb, bb), DELTA), ("Y", (jb, bb), None)], (ia, ab)),
+        W.term("T7", [("X", (ia, ab), None), ("d", (jb, ca), DELTA), ("Y", (jb, ca), None)], (ia, ab)),
+        W.term("T8", [("d", (ia, ja), DELTA), ("d", (ab, bb), DELTA), ("e", (bb,), None)], (ia, ab)),
     ]
     if clash:
         terms.append(W.term("T5", [("f", (ja, jb), None), ("X", (ia, ab), None)], (ia, ab)))
@@ -461,19 +549,24 @@ def r15e(ctx):
             continue
         terms = W.ie.attrs["terms"]
         sfx = "x" if expand else ""
-        if [t.name for t in terms] != [f"T{k}{sfx}" for k in (1, 2, 3, 4)]:
+        if [t.name for t in terms] != [f"T{k}{sfx}" for k in (1, 2, 3, 4, 6, 7, 8)]:
             raise AnalysisError(f"R15e: model terms {[t.name for t in terms]}")
         want = []
         for t in terms:
             beta = {i.name: i.name[:-1] + "a" for i in t.attrs["idx"] if i.attrs["spin"] == "b"}
+            if any(bl is DELTA and len({i.attrs["spin"] for i in ob.attrs["idx"]}) == 2
+                   for ob in t.attrs["objects"] for bl in [ob.attrs["allowed_spin_blocks"]]):
+                continue    # a delta between an alpha and a beta index: the term is 0 before and after the renaming
             want.append(T("subs", sym(t.name + ".sympy"), frozenset(beta.items())) if beta else sym(t.name + ".sympy"))
-        parts = flat(o.value)
+        parts = flat(o.value, W)
         accs = [p.args[0] for p in parts if isinstance(p, T) and p.op == "sym" and str(p.args[0]).startswith("Expr#")]
         got = [p for p in parts if not (isinstance(p, T) and p.op == "sym" and str(p.args[0]).startswith("Expr#"))]
         missing, surplus = multiset_diff(multiset(map(repr, got)), multiset(map(repr, want)))
         ctx.check(rule, fn, not missing and not surplus,
-                  "restricted: every term once, exactly its beta indices renamed to the alpha index of the same name",
-                  f"{what}: expected the {len(want)} terms of the {'expanded ' if expand else ''}integrated expression with beta -> alpha; "
+                  "restricted: every term once, exactly its beta indices renamed to the alpha index of the same name, all at once",
+                  f"{what}: expected the {len(want)} non-zero terms of the {'expanded ' if expand else ''}integrated expression with all "
+                  "beta indices renamed to alpha at once (a term is lost when the renaming passes through a Kronecker delta between an "
+                  "alpha and a beta index, which evaluates to 0); "
                   f"missing {missing[:2]}; surplus {surplus[:2]}", key=f"restricted terms {expand} {provided}")
         ctx.check(rule, fn, len(accs) >= 1, "restricted: result is an Expr", f"{what}: no Expr accumulator in the result",
                   key=f"restricted result {expand} {provided}")
